@@ -8,7 +8,10 @@ ENTRIES = [
     ("k_hexa", 4, "k_hexa(src)", "From<&HexaEscape> for char, both hex digits symbolic", {"digits": "every pair of hexadecimal digits"}),
     ("k_simple", 4, "k_simple(src)", "From<&SimpleEscape> for char and TryFrom<&StringItem>", {"escape": "all six"}),
     ("k_utf8", 8, "k_utf8(src)", "TryFrom<&Utf8Escape> for char, 1..6 symbolic hex digits", {"digits": "every string of 1..6 hexadecimal digits"}),
-    ("k_literal", 6, "k_literal(src)", "TryFrom<&StringLiteral> for String: items concatenated in order", {"items": "char + \\xHH (+ \\t), symbolic"}),
+    ("e_hexa", 6, "e_hexa(src)", "shipped front end: parse_HexaEscape on x + 3 symbolic bytes, then the real decoder", {"text": "x followed by <=3 arbitrary bytes of UTF-8"}),
+    ("e_utf8_u", 11, "e_utf8_u::<9,_>(src)", "shipped front end: parse_Utf8Escape on u + 8 symbolic bytes (both u-forms), then the real decoder", {"text": "u followed by <=8 arbitrary bytes of UTF-8"}),
+    ("e_utf8_big", 12, "e_utf8_big(src)", "shipped front end: parse_Utf8Escape on U + 9 symbolic bytes, then the real decoder", {"text": "U followed by <=9 arbitrary bytes of UTF-8"}),
+    ("e_item", 6, "e_item(src)", "shipped front end: parse_StringItem on every text of <=4 bytes of UTF-8", {"text": "<=4 arbitrary bytes of UTF-8"}),
 ]
 _crate = None
 
@@ -16,8 +19,8 @@ _crate = None
 def crate():
     global _crate
     if _crate is None:
-        body = open(K_LIB).read()
-        lib = f'include!("{kani.RT}");\n' + body + "\n" + crates.proofs_and_dispatch([(n, u, c) for (n, u, c, d, b) in ENTRIES], stubs=("format", "backtrace"))
+        body = open(K_LIB).read().replace("__REPO__", kani.REPO)
+        lib = f'include!("{kani.RT}");\n' + body + "\n" + crates.proofs_and_dispatch([(n + "_h", u, c) for (n, u, c, d, b) in ENTRIES], stubs=("format", "backtrace"))
         _crate = kani.write_crate("k_cg", {"src/lib.rs": lib, "src/main.rs": crates.MAIN_RS.replace("CRATE", "k_cg")}, deps_codegen=True)
     return _crate
 
@@ -25,5 +28,5 @@ def crate():
 def jobs(**kw):
     out = []
     for (n, u, c, d, b) in ENTRIES:
-        out.append(kani.Job(jid=n, crate=crate(), harness=n, desc=d, bound=dict(b, unwind=u), meta={"role": n}, **kw))
+        out.append(kani.Job(jid=n, crate=crate(), harness=n + "_h", desc=d, bound=dict(b, unwind=u), meta={"role": n}, **kw))
     return out
